@@ -14,6 +14,8 @@ def allOps : List (String × (Json → D Json)) :=
   ++ Polar.invariantOps
   ++ Polar.synthOps
   ++ Polar.limitOps
+  ++ Polar.validateOps
+  ++ Polar.validateSimOps
 
 def dispatch (j : Json) : Json :=
   match jField j "op" >>= jStr with
